@@ -4,7 +4,8 @@
 From Vx Require Import base.Prelude model.Colour model.RenderTypes model.Render model.RefTerm.
 
 Section Spec.
-Variable tw : list Z -> Z.     (* the terminal's width for a grapheme written raw *)
+Variable tw : list Z -> Z.       (* the terminal's width for a grapheme written raw *)
+Variable measure : list Z -> Z.  (* Vaxis.RenderedWidth for this instance (oracle) *)
 Variable cp : caps.
 
 (* how a style looks on a terminal with these capabilities (the faithful fallbacks of C07) *)
@@ -48,7 +49,9 @@ Fixpoint row_ok (ns : list cell) (skip : Z) : bool :=
   | [] => skip =? 0
   | n :: t =>
       if 0 <? skip then row_ok t (skip - 1)
-      else negb (c_sixel n) && adv_ok n && (0 <=? c_w n) && row_ok t (span n - 1)
+      else negb (c_sixel n) && adv_ok n && (0 <=? c_w n) && (c_mw n =? measure (c_g n)) &&
+           (0 <=? s_attr (c_st n)) && (s_attr (c_st n) <? 256) &&
+           row_ok t (span n - 1)
   end.
 Definition grid_ok (g : list (list cell)) : bool := forallb (fun r => row_ok r 0) g.
 
